@@ -93,7 +93,23 @@ def api_job(job):
     kw = dict(kw)
     pres = kw.pop("presidential", False)
     rng = random.Random(seed)
+    surge = kw.pop("surge", False)
     case = gen.gen_case(rng, pi_method="bootstrap", alphas=[0.6, 0.8, 0.95], **kw)
+    if surge:
+        # a county whose precincts are all 85-95% in with a turnout surge: more votes already counted than the model predicts in total
+        by_county = {}
+        for b in case["baseline"]:
+            if b["baseline_turnout"] > 0:
+                by_county.setdefault((b["postal_code"], b["county_fips"]), []).append(b)
+        big = [k for k, v in by_county.items() if len(v) >= 3]
+        if big:
+            key = rng.choice(sorted(big))
+            ids = {b["geographic_unit_fips"] for b in by_county[key]}
+            bl = set(case["params"]["model_parameters"].get("unit_blocklist", []))
+            case["feed"] = [f for f in case["feed"] if f["geographic_unit_fips"] not in ids]
+            for b in by_county[key]:
+                case["feed"].append(gen.live_row(rng, b, rng.choice([85, 90, 95]), tf=rng.choice([1.4, 1.5, 1.7])))
+            case["params"]["model_parameters"]["unit_blocklist"] = sorted(bl - ids)
     if pres:
         # the (rarely used) correction from the presidential race of the same election: its files come from an in-memory stand-in
         from harness import run_impl
@@ -253,6 +269,9 @@ def run(chk):
             kw["office"] = "H"
         if i % 4 == 2:
             kw["model_parameters"] = {"lambda_": [0.0, 1.0, 50.0][i % 3]}
+        if i % 6 == 5:
+            kw.update({"office": "S", "unit_type": "precinct", "surge": True, "n_unexpected": 0, "threshold": 100, "n_units": 100,
+                       "aggregates": ["postal_code", "county_fips", "unit"], "special": False})
         if i % 6 == 3:
             kw.update({"office": "S", "unit_type": "county", "presidential": True, "n_unexpected": 0, "aggregates": ["postal_code", "county_fips", "unit"]})
         ajobs.append((rng.randint(0, 2**31), kw))
